@@ -456,7 +456,7 @@ def bounded(tier, seed):
     def jul(yyyyjjj, hhmmss):
         return datetime(yyyyjjj // 1000, 1, 1, tzinfo=utc) + timedelta(days=yyyyjjj % 1000 - 1, hours=hhmmss // 10000,
                                                                      minutes=hhmmss // 100 % 100, seconds=hhmmss % 100)
-    for Y in (range(1970, 2070, 7) if tier != 'quick' else (1999, 2000, 2024)):
+    for Y in (range(1970, 2070, 7) if tier != 'quick' else (1999, 2000, 2024, 2040, 2069)):     # (2038 and later: beyond 2**31 seconds since 1970)
         for J in (1, 59, 60, 365, 366):
             if J == 366 and not (Y % 4 == 0 and (Y % 100 != 0 or Y % 400 == 0)):
                 continue
